@@ -49,6 +49,13 @@ NotO(x, r) == [k |-> "Not", x |-> x, roe |-> r]
 AndO(xs, r) == [k |-> "And", xs |-> xs, roe |-> r]
 OrO(xs, r) == [k |-> "Or", xs |-> xs, roe |-> r]
 SC(p, q, r) == [k |-> "SC", p |-> p, q |-> q, roe |-> r]
+\* leaves that raise an exception of a chosen class (the class is part of the result, see below):
+\*   FnR(e): a callable that always raises e;  FnN(e): data > 0 for a number, raises e otherwise
+\*   SCE(p, q, e, r): SelectContext whose predicate q is "raise" (always raises e) or "needx"
+\*                    (sub["x"] == 1 for a dictionary holding "x", raises e otherwise)
+FnR(e) == [k |-> "fn", f |-> "raise", e |-> e]
+FnN(e) == [k |-> "fn", f |-> "num", e |-> e]
+SCE(p, q, e, r) == [k |-> "SC", p |-> p, q |-> q, e |-> e, roe |-> r]
 IsObj(x) == x.k \in {"Sel", "Not", "And", "Or", "SC"}
 IsLeaf(x) == x.k \in {"str", "cls", "fn"}
 
@@ -72,15 +79,34 @@ Contains(c, p) == ContainsFrom(c, p, 1)
 \* ("ucls": a user class that happens to be callable - still a class, used for an isinstance test)
 IsInst(d, c) == c = "object" \/ c = d.t \/ (d.t = "bool" /\ c = "int")
 
+(***************************************************************************)
+(* Results: "T", "F", or - an exception propagates - the name of its class. *)
+(* An exception keeps its identity on the way out: what reaches the caller *)
+(* of a selector is the exception raised by the leaf, so the class is part *)
+(* of the outcome.  The classes of the universes: Python's own (TypeError, *)
+(* ValueError, KeyError, LookupError, AttributeError), lena's (LenaKeyError *)
+(* - the class that get_recursively raises for an absent key and that      *)
+(* SelectContext catches around its lookup -, LenaTypeError,               *)
+(* LenaValueError, LenaAttributeError, LenaException), and the harness's   *)
+(* (Boom, a plain Exception; SubLenaKeyError, a subclass of LenaKeyError). *)
+(***************************************************************************)
+ExcKinds == {"Boom", "TypeError", "ValueError", "KeyError", "LookupError", "AttributeError",
+             "LenaKeyError", "LenaTypeError", "LenaValueError", "LenaAttributeError", "LenaException",
+             "SubLenaKeyError"}
+IsE(r) == r \notin {"T", "F"}
+
 \* the callables of the harness (lenaverif/sellib.py FUNCS)
 B(b) == IF b THEN "T" ELSE "F"
-FnEval(f, v) ==
+FnEval(x, v) ==
+  LET f == x.f IN
   CASE f = "yes" -> "T"
     [] f = "no" -> "F"
-    [] f = "boom" -> "E"                                                   \* always raises
-    [] f \in {"pos", "objpos"} -> IF v.d.t \in {"int", "bool"} THEN B(v.d.n > 0) ELSE "E"   \* data > 0 (TypeError for str, None, (), lists)
+    [] f = "boom" -> "Boom"                                                \* always raises Boom
+    [] f = "raise" -> x.e                                                  \* always raises the chosen class
+    [] f = "num" -> IF v.d.t \in {"int", "bool"} THEN B(v.d.n > 0) ELSE x.e   \* like "pos", raising the chosen class
+    [] f \in {"pos", "objpos"} -> IF v.d.t \in {"int", "bool"} THEN B(v.d.n > 0) ELSE "TypeError"   \* data > 0 (TypeError for str, None, (), lists)
                                                                           \* "objpos": the same as an object with __call__
-    [] f = "len" -> IF v.d.t \in {"str", "tuple", "list"} THEN B(v.d.n > 0) ELSE "E" \* len(data), not a bool
+    [] f = "len" -> IF v.d.t \in {"str", "tuple", "list"} THEN B(v.d.n > 0) ELSE "TypeError" \* len(data), not a bool
     [] f = "hasctx" -> B(v.c # Empty)                                      \* bool(get_context(v))
     [] f = "isnone" -> B(v.d.t = "none")                                   \* data is None
     [] f = "eq0" -> B(v.d.t \in {"int", "bool"} /\ v.d.n = 0)               \* data == 0
@@ -88,7 +114,7 @@ FnEval(f, v) ==
 LeafEval(x, v) ==
   CASE x.k = "str" -> Contains(v.c, x.p)
     [] x.k = "cls" -> B(IsInst(v.d, x.c))
-    [] x.k = "fn" -> FnEval(x.f, v)
+    [] x.k = "fn" -> FnEval(x, v)
 
 \* lena.context.get_recursively(context, path) without default: Absent <=> LenaKeyError
 RECURSIVE GetRec(_, _, _)
@@ -104,25 +130,34 @@ PredEval(q, s) ==
     [] q = "isnone" -> B(s.k = "L" /\ s.t = "none")                        \* sub is None
     [] q = "eq0" -> B(Num(s) /\ s.n = 0)                                   \* sub == 0 (False == 0)
     [] q = "eq1" -> B(Num(s) /\ s.n = 1)                                   \* sub == 1
-    [] q = "gt0" -> IF Num(s) THEN B(s.n > 0) ELSE "E"                     \* sub > 0 (TypeError otherwise)
+    [] q = "gt0" -> IF Num(s) THEN B(s.n > 0) ELSE "TypeError"             \* sub > 0 (TypeError otherwise)
     [] q = "hasx" -> IF s.k = "D" THEN B("x" \in DOMAIN s.m)               \* "x" in sub
                      ELSE IF s.t = "str" THEN B(HasXStr(s.v))                \* a substring test
-                     ELSE IF IsSeqLeaf(s) THEN B(s.n > 0) ELSE "E"
+                     ELSE IF IsSeqLeaf(s) THEN B(s.n > 0) ELSE "TypeError"    \* numbers, None: not iterable
     [] q = "truthy" -> IF s.k = "D" THEN B(s.m # <<>>)                     \* bool(sub)
                        ELSE IF Num(s) \/ IsSeqLeaf(s) THEN B(s.n # 0)
                        ELSE IF s.t = "str" THEN B(s.v # "") ELSE "F"
     [] q = "always" -> "T"
-    [] q = "boom" -> "E"
+    [] q = "boom" -> "Boom"
     \* predicates that are classes: they are *called* with the sub-context (not used for an isinstance test)
     [] q = "cbool" -> IF s.k = "D" THEN B(s.m # <<>>)                      \* bool(sub)
                       ELSE IF Num(s) \/ IsSeqLeaf(s) THEN B(s.n # 0)
                       ELSE IF s.t = "str" THEN B(s.v # "") ELSE "F"
     [] q = "cstr" -> IF s.k = "L" /\ s.t = "str" THEN B(s.v # "") ELSE "T"  \* str(sub): "None", "0", "{}", "[]" are not empty
     [] q = "cint" -> IF Num(s) THEN B(s.n # 0)                             \* int(sub)
-                     ELSE IF s.k = "L" /\ s.t = "str" /\ s.v \in {"5", "1", "55"} THEN "T" ELSE "E"
+                     ELSE IF s.k = "L" /\ s.t = "str" THEN (IF s.v \in {"5", "1", "55"} THEN "T" ELSE "ValueError")
+                     ELSE "TypeError"                                      \* int(None), int({}), int([])
     [] q = "cdict" -> IF s.k = "D" THEN B(s.m # <<>>)                      \* dict(sub)
-                      ELSE IF (IsSeqLeaf(s) /\ s.n = 0) \/ (s.t = "str" /\ s.v = "") THEN "F" ELSE "E"
+                      ELSE IF (IsSeqLeaf(s) /\ s.n = 0) \/ (s.t = "str" /\ s.v = "") THEN "F"
+                      ELSE IF IsSeqLeaf(s) \/ s.t = "str" THEN "ValueError"  \* items of length 1, not pairs
+                      ELSE "TypeError"                                     \* numbers, None: not iterable
     [] q = "cuser" -> "T"                                                  \* an instance of a user class
+
+\* the predicate of a SelectContext specification applied to the sub-context s
+PredOf(o, s) ==
+  IF "e" \notin DOMAIN o THEN PredEval(o.q, s)
+  ELSE CASE o.q = "raise" -> o.e
+         [] o.q = "needx" -> IF s.k = "D" /\ "x" \in DOMAIN s.m THEN B(Num(s.m["x"]) /\ s.m["x"].n = 1) ELSE o.e
 
 (***************************************************************************)
 (* Declarative semantics, written from the documentation.                  *)
@@ -130,9 +165,12 @@ PredEval(q, s) ==
 (*   list: OR, tuple: AND (left to right, short circuit); Not negates;     *)
 (*   raise_on_error = False: an exception counts as not selected (for Not: *)
 (*   "a full negation including the case of an error"); SelectContext:     *)
-(*   predicate on the addressed sub-context, False when that is absent.    *)
+(*   predicate on the addressed sub-context, False when that is absent -   *)
+(*   and only then: an exception of the predicate itself is a leaf's       *)
+(*   exception like any other, whatever its class.                         *)
+(*   With raise_on_error = True the leaf's exception reaches the caller.   *)
 (***************************************************************************)
-Catch(roe, r) == IF r = "E" /\ ~roe THEN "F" ELSE r
+Catch(roe, r) == IF IsE(r) /\ ~roe THEN "F" ELSE r
 Neg(r) == CASE r = "T" -> "F" [] r = "F" -> "T" [] OTHER -> r
 
 RECURSIVE EvalRaw(_, _, _), EvalObj(_, _), OrSeq(_, _, _, _), AndSeq(_, _, _, _)
@@ -157,17 +195,17 @@ EvalObj(o, v) ==
     [] o.k = "And" -> AndSeq(o.xs, o.roe, v, 1)
     [] o.k = "Or" -> OrSeq(o.xs, o.roe, v, 1)
     [] o.k = "SC" -> LET s == GetRec(v.c, o.p, 1) IN
-                     IF s = Absent THEN "F" ELSE Catch(o.roe, PredEval(o.q, s))
+                     IF s = Absent THEN "F" ELSE Catch(o.roe, PredOf(o, s))
 Eval(o, v) == EvalObj(o, v)
 
 \* Filter(selector).run(flow): the selected values; stops at the first value whose test raises
 RECURSIVE FilterSem(_, _)
 FilterSem(o, vs) ==
-  IF vs = <<>> THEN [out |-> <<>>, raised |-> FALSE]
+  IF vs = <<>> THEN [out |-> <<>>, raised |-> FALSE, exc |-> ""]
   ELSE LET r == Eval(o, Head(vs)) IN
-       IF r = "E" THEN [out |-> <<>>, raised |-> TRUE]
+       IF IsE(r) THEN [out |-> <<>>, raised |-> TRUE, exc |-> r]
        ELSE LET t == FilterSem(o, Tail(vs)) IN
-            [out |-> (IF r = "T" THEN <<Head(vs)>> ELSE <<>>) \o t.out, raised |-> t.raised]
+            [out |-> (IF r = "T" THEN <<Head(vs)>> ELSE <<>>) \o t.out, raised |-> t.raised, exc |-> t.exc]
 
 (***************************************************************************)
 (* Which specifications are inside the statement.                          *)
@@ -195,22 +233,31 @@ Defined(x, v) ==
     [] x.k \in {"Sel", "Not"} -> Defined(x.x, v)
     [] OTHER -> TRUE
 
+\* the exceptions the leaves of a specification raise on a value (each taken alone)
+RECURSIVE LeafExcs(_, _)
+LeafExcs(x, v) ==
+  CASE IsLeaf(x) -> (IF IsE(LeafEval(x, v)) THEN {LeafEval(x, v)} ELSE {})
+    [] x.k \in {"list", "tuple", "And", "Or"} -> UNION {LeafExcs(x.xs[i], v) : i \in 1..Len(x.xs)}
+    [] x.k \in {"Sel", "Not"} -> LeafExcs(x.x, v)
+    [] x.k = "SC" -> LET s == GetRec(v.c, x.p, 1) IN
+                     IF s # Absent /\ IsE(PredOf(x, s)) THEN {PredOf(x, s)} ELSE {}
+
 (***************************************************************************)
 (* Classical reading: when no leaf raises, the result is plain two-valued  *)
 (* logic, independent of evaluation order.                                 *)
 (***************************************************************************)
 RECURSIVE Total(_, _), Holds(_, _)
 Total(x, v) ==
-  CASE IsLeaf(x) -> LeafEval(x, v) # "E"
+  CASE IsLeaf(x) -> ~IsE(LeafEval(x, v))
     [] x.k \in {"list", "tuple", "And", "Or"} -> \A i \in 1..Len(x.xs) : Total(x.xs[i], v)
     [] x.k \in {"Sel", "Not"} -> Total(x.x, v)
-    [] x.k = "SC" -> LET s == GetRec(v.c, x.p, 1) IN s = Absent \/ PredEval(x.q, s) # "E"
+    [] x.k = "SC" -> LET s == GetRec(v.c, x.p, 1) IN s = Absent \/ ~IsE(PredOf(x, s))
 Holds(x, v) ==
   CASE IsLeaf(x) -> LeafEval(x, v) = "T"
     [] x.k \in {"list", "Or"} -> \E i \in 1..Len(x.xs) : Holds(x.xs[i], v)
     [] x.k \in {"tuple", "And"} -> \A i \in 1..Len(x.xs) : Holds(x.xs[i], v)
     [] x.k = "Sel" -> Holds(x.x, v)
     [] x.k = "Not" -> ~Holds(x.x, v)
-    [] x.k = "SC" -> LET s == GetRec(v.c, x.p, 1) IN s # Absent /\ PredEval(x.q, s) = "T"
+    [] x.k = "SC" -> LET s == GetRec(v.c, x.p, 1) IN s # Absent /\ PredOf(x, s) = "T"
 
 =============================================================================
